@@ -10,7 +10,7 @@ import os, re, itertools
 from vlib import core, twin
 
 LEVEL = "exploration"
-BUDGET = {"quick": 400, "thorough": 1800}
+BUDGET = {"quick": 900, "thorough": 3600}     # deadlines, not expected times (a loaded machine is 5-8x slower)
 
 TYPES = ["_Bool", "char", "short", "int", "long", "unsigned char", "unsigned short", "unsigned int", "unsigned long"]
 TN = ["bool", "char", "short", "int", "long", "uchar", "ushort", "uint", "ulong"]
